@@ -79,6 +79,26 @@ func sharingConfigs(env *engine.Env) []fixture.Doc {
 			d["provides"] = []any{"p"}
 		}),
 	}
+	// every content type, with partial file_info (shared pointers) on each
+	var alltypes []model.Entry
+	for i, typ := range c08Types {
+		e := c08Entry(typ, "", 100+i, false)
+		e.HasInfo, e.Owner = true, "app"
+		alltypes = append(alltypes, e)
+	}
+	docs = append(docs, mk(alltypes, nil))
+	// relations carrying blanks and version constraints, every relation kind
+	docs = append(docs, mk(plain, func(d fixture.Doc) {
+		d["depends"] = []any{"foo >= 1.2", "bar", "baz  <  3"}
+		d["provides"] = []any{"virt = 1.0"}
+		d["replaces"] = []any{"old < 2"}
+		d["conflicts"] = []any{"enemy >= 5"}
+		d["recommends"] = []any{"nice >= 1"}
+		d["suggests"] = []any{"maybe = 2"}
+		d["deb"] = map[string]any{"breaks": []any{"brk < 1"}, "predepends": []any{"pre >= 1"}}
+		d["ipk"] = map[string]any{"predepends": []any{"pre >= 1"}, "tags": []any{"t 1", "t 2"}}
+		d["rpm"] = map[string]any{"buildhost": "buildhost.example", "prefixes": []any{"/usr", "/opt"}}
+	}))
 	// everything together
 	all := mk(append(append([]model.Entry{}, partial...), tagged[1:]...), func(d fixture.Doc) {
 		d["overrides"] = map[string]any{"deb": map[string]any{"umask": 0o077, "depends": []any{"only-deb"}}, "rpm": map[string]any{"rpm": map[string]any{"signature": map[string]any{"key_id": "cccc3333"}}}}
